@@ -405,7 +405,9 @@ func execNames(in Ev) Ev {
 		guarded(func() { last.Value().SetAsString("set in place") })
 		now := rest()
 		guarded(func() { last.Value().Assign(saved) })
-		e["held_what"], e["held_then"], e["held_now"] = "values of the other variables after one variable's value was changed in place", short(then), short(now)
+		if _, already := e["held_what"]; !already || then != now {
+			e["held_what"], e["held_then"], e["held_now"] = "values of the other variables after one variable's value was changed in place", short(then), short(now)
+		}
 	}
 	return e
 }
